@@ -110,6 +110,12 @@ def nested(rng):
             "function main() -> void { bit x = 1b; x = " + "~" * 13000 + "x; }",
             "function main() -> void { int x = 1" + "+1" * 13000 + "; }",
             "function main() -> void { int x = 0; x = " + "x = " * 13000 + "1; }",
+            # type arguments nested tens of thousands deep; a generic type whose size multiplies at every member access
+            "class A<T> { public constructor() -> A<T> { } }\nfunction main() -> void { " + "A<" * 30000 + "int" + ">" * 30000 + " x; }",
+            "function f(" + "A<" * 30000,
+            "class P<A, B, C, D, E, F, G, H> { public P<P<A,B,C,D,E,F,G,H>, P<A,B,C,D,E,F,G,H>, P<A,B,C,D,E,F,G,H>, P<A,B,C,D,E,F,G,H>, P<A,B,C,D,E,F,G,H>, "
+            "P<A,B,C,D,E,F,G,H>, P<A,B,C,D,E,F,G,H>, P<A,B,C,D,E,F,G,H>> f = null; public constructor() -> P<A, B, C, D, E, F, G, H> { } }\n"
+            "function main() -> void { P<int,int,int,int,int,int,int,int> p = new P<int,int,int,int,int,int,int,int>(); echo(p.f.f.f.f.f.f.f.f.f == null); }",
             # depth that adds up across levels: 25 parentheses, each followed by a chain of 490 operators (24 KB, tree depth 12000)
             "function main() -> void { int x = " + _paren_chain(25, 490) + "; int y = zz; }",
             "function main() -> void { int x = f(" + _paren_chain(9, 490) + "); }",
